@@ -28,6 +28,19 @@ EXPECTED = ("output = input with exactly one COSE_Sign1 block appended to the au
             "['Signature1', protected, h'', digest] under the public key; ECDSA signatures fixed-width r||s")
 
 
+def digest_with(pattern):
+    """an unsigned envelope (built here, sha-256) whose manifest digest contains the byte pattern — d2 84 is how a tagged COSE_Sign1
+    begins: the digest element is data, whatever its bytes look like"""
+    import hashlib
+    import cbor2
+    for seq in range(200000):
+        man = cbor2.dumps({1: 1, 2: seq, 3: cbor2.dumps({2: [[b"M"]]})})
+        dg = hashlib.sha256(cbor2.dumps(man)).digest()
+        if (dg.startswith(pattern) if len(pattern) == 1 else pattern in dg):
+            return cbor2.dumps(cbor2.CBORTag(107, {2: cbor2.dumps([cbor2.dumps([-16, dg])]), 3: man}))
+    raise RuntimeError("no digest with the pattern found")
+
+
 def pem_of(keys, name):
     s = keys.ser
     return keys.keys[name][2].private_bytes(s.Encoding.PEM, s.PrivateFormat.PKCS8, s.NoEncryption()).decode()
@@ -312,6 +325,8 @@ def run(tier, seed):
         keys = sl.Keys(os.path.join(tmp, "keys"))
         envs = sl.make_envelopes(ck, tmp, 90 if ck.thorough else 24 if ck.deep else 7, max_depth=2)
         envs.append((CORPUS_ENVELOPE, ["corpus"]))
+        envs.insert(0, (digest_with(b"\xd2\x84"), ["digest bytes contain d2 84, the head of a tagged COSE_Sign1"]))
+        envs.insert(1, (digest_with(b"\xd2"), ["digest bytes begin with d2"], ))
         failing += corpus_stream(ck, tmp, keys)
         failing += lib_stream(ck, tmp, keys, envs)
         failing += cli_stream(ck, tmp, keys, envs)
